@@ -2,6 +2,7 @@
 //! /verif/properties.jsonl.  See /verif/DESIGN.md.
 mod engine;
 mod props;
+mod refm;
 #[allow(dead_code)]
 mod util;
 
